@@ -66,37 +66,41 @@ def _reqset(t):
 BASE = dict(Comps={1, 2}, Unknown=UNKNOWN, Namespaces={1, 2}, Metrics={1, 2}, Starts={0, 1})
 SCOPES = {
     "quick": dict(
-        mc=dict(BASE, ReqSet=_reqset(CANON), MaxMsg=4, MaxReq=3),
-        live=dict(BASE, ReqSet=_reqset(CANON), MaxMsg=2, MaxReq=2),
-        gen=dict(BASE, ReqSet=_reqset(CANON), MaxMsg=2, MaxReq=2, MaxDepth=9),
+        mc=dict(BASE, ReqSet=_reqset(CANON), MaxMsg=3, MaxReq=3, MaxFail=1),
+        live=dict(BASE, ReqSet=_reqset(CANON), MaxMsg=2, MaxReq=2, MaxFail=1),
+        gen=dict(BASE, ReqSet=_reqset(CANON), MaxMsg=2, MaxReq=2, MaxFail=1, MaxDepth=9),
         gen_limit=2000,
-        sim=dict(BASE, ReqSet=_reqset(FULL_SIM), MaxMsg=6, MaxReq=4, MaxDepth=40),
+        sim=dict(BASE, ReqSet=_reqset(FULL_SIM), MaxMsg=6, MaxReq=4, MaxFail=1, MaxDepth=40),
         sim_num=400,
-        env=dict(BASE, ReqSet=_reqset(CANON), MaxMsg=3, MaxReq=3, MaxDepth=5),
-        off_orders=8, off_k=4,
+        env=dict(BASE, ReqSet=_reqset(CANON), MaxMsg=3, MaxReq=3, MaxFail=1, MaxDepth=5),
+        off_orders=9, off_k=4,
         table_msgs=2,
     ),
     "thorough": dict(
-        mc=dict(BASE, ReqSet=_reqset(FULL), MaxMsg=4, MaxReq=3),
-        live=dict(BASE, ReqSet=_reqset(CANON), MaxMsg=3, MaxReq=2),
-        gen=dict(BASE, ReqSet=_reqset(CANON), MaxMsg=3, MaxReq=3, MaxDepth=11),
+        mc=dict(BASE, ReqSet=_reqset(FULL), MaxMsg=4, MaxReq=3, MaxFail=1),
+        live=dict(BASE, ReqSet=_reqset(CANON), MaxMsg=3, MaxReq=2, MaxFail=1),
+        gen=dict(BASE, ReqSet=_reqset(CANON), MaxMsg=3, MaxReq=3, MaxFail=1, MaxDepth=11),
         gen_limit=60000,
-        sim=dict(BASE, ReqSet=_reqset(FULL_SIM), MaxMsg=8, MaxReq=5, MaxDepth=60),
+        sim=dict(BASE, ReqSet=_reqset(FULL_SIM), MaxMsg=8, MaxReq=5, MaxFail=2, MaxDepth=60),
         sim_num=20000,
-        env=dict(BASE, ReqSet=_reqset(CANON), MaxMsg=4, MaxReq=3, MaxDepth=6),
-        off_orders=24, off_k=4,
+        env=dict(BASE, ReqSet=_reqset(CANON), MaxMsg=4, MaxReq=3, MaxFail=1, MaxDepth=6),
+        off_orders=25, off_k=4,
         table_msgs=3,
     ),
 }
 MC_INV = ["TypeOK", "ExactlyOnceInOrder", "NoApiMessageLost", "QuiescentAllDelivered"]
 MC_PROPS = ["ExistingSubsUndisturbed", "DuplicateRequestNoEffect", "UnknownComponentHarmless"]
-ACTIONS = ["MsgStep", "ReqStep", "RecvStep", "AddStep", "StartStep", "ConsStep", "SendStep"]
+ACTIONS = ["MsgStep", "ReqStep", "FailStep", "RecvStep", "AddStep", "CrashStep", "RestartStep", "StartStep", "ConsStep", "SendStep"]
 # the forced hand-over order: a subscription, a burst, a second subscription on the same component
 # (other metric), one more message; then a duplicate of the first
 HANDOVER = [("req", 1, 1, 1, 0), ("msg", 1, 0, 0, 0), ("msg", 1, 0, 0, 0), ("req", 1, 1, 2, 0), ("msg", 1, 0, 0, 0)]
 HANDOVER_NS = [("req", 1, 1, 1, 0), ("msg", 1, 0, 0, 0), ("req", 1, 2, 1, 0), ("msg", 1, 0, 0, 0), ("req", 1, 1, 1, 0)]
 # ... and one whose second subscription differs from the first only in start_time, then its exact duplicate
 HANDOVER_ST = [("req", 1, 1, 1, 0), ("msg", 1, 0, 0, 0), ("req", 1, 1, 1, 1), ("msg", 1, 0, 0, 0), ("req", 1, 1, 1, 1)]
+
+# extension (transient API failure): a subscription, the API's component list fails while the actor looks up an
+# unknown id (the actor crashes and is restarted after RESTART_DELAY), the first request again, a message
+HANDOVER_CRASH = [("req", 1, 1, 1, 0), ("fail", 0, 0, 0, 0), ("req", UNKNOWN, 1, 1, 0), ("req", 1, 1, 1, 0), ("msg", 1, 0, 0, 0)]
 
 NONE = -99
 HEAP = "2g"  # the state spaces are small; many checks share the machine
@@ -140,6 +144,7 @@ class Exec:
         self.nmsg = {c: 0 for c in range(1, self.nc + 1)}
         self.msg_id: dict[int, tuple[int, int]] = {}
         self._keep: list = []
+        self.fail_next = False
         self.taps: dict[tuple[int, int, int], object] = {}
         self.gen = {c: 0 for c in range(1, self.nc + 1)}
         self._task_seen: dict[int, object] = {}
@@ -163,6 +168,10 @@ class Exec:
             async def components(self):
                 if ex.slow:
                     await asyncio.sleep(0)
+                if ex.fail_next:  # extension: a transient failure of the API call, armed by the schedule
+                    ex.fail_next = False
+                    ex.obs.append(ex.ob("listfail"))
+                    raise RuntimeError("components(): transient API failure")
                 return {Component(component_id=c, category=getattr(ComponentCategory, ex.cats[c - 1])) for c in self.chans}
 
             async def _data(self, c: int, cat: str, maxsize: int = 50):
@@ -258,6 +267,18 @@ class Exec:
             self.taps[key] = self.registry.get_or_create(self.Sample[self.Quantity], req.get_channel_name()).new_receiver(limit=500)
         self._sync(self.req_sender.send(req))
         self.lines.append(dict(ev="req", c=c, ns=ns, m=m, st=st))
+
+    def arm_fail(self) -> None:
+        self.fail_next = True
+        self.lines.append(dict(ev="fail"))
+
+    def tick(self, horizon: float = 30.0) -> bool:
+        """The loop is idle: let virtual time pass up to the next timer (an actor restart delay)."""
+        nxt = self.loop.next_deadline()
+        if nxt is None or nxt > horizon:
+            return False
+        self.loop.jump_to(max(nxt, self.loop.time()))
+        return True
 
     def message(self, c: int) -> None:
         self.nmsg[c] += 1
@@ -357,7 +378,9 @@ def execute(case: dict) -> dict:
                 ex.request(a["c"], a["ns"], a["m"], a.get("st", 0))
             elif a["a"] == "msg":
                 ex.message(a["c"])
-            elif not ex.loop.idle():
+            elif a["a"] == "fail":
+                ex.arm_fail()
+            elif not ex.loop.idle() or ex.tick():
                 ex.iter()
         ex.drain()
         return dict(id=case["id"], stage=case.get("stage", ""), cfg=case["cfg"], lines=ex.lines)
@@ -397,7 +420,8 @@ def _witness(records: list) -> dict:
     (book-keeping for the vacuity guards; no clause is decided here)."""
     w = dict(traces=0, samples=0, streams=0, restarts_with_existing_streams=0, restart_while_fanout_in_flight=0,
              restart_with_message_buffered=0, duplicate_takes=0, unknown_takes=0, back_to_back_takes=0,
-             receiver_created_by_suspending_api=0, requests_differing_only_in_start_time=0, samples_on_start_time_twins=0,
+             receiver_created_by_suspending_api=0, actor_crashes=0, requests_dropped_by_crash=0, duplicate_takes_after_restart=0,
+             streams_fed_across_restart=0, requests_differing_only_in_start_time=0, samples_on_start_time_twins=0,
              samples_by_category={}, metrics_seen={})
     for r in records:
         if True:
@@ -405,6 +429,9 @@ def _witness(records: list) -> dict:
             cfg = r["cfg"]
             taken: list[tuple] = []
             twins: set = set()
+            crashed = False
+            last_take = None  # (key, was it counted as new)
+            fed_after: set = set()
             first: dict = {}  # key -> number of messages consumed when it was installed
             injected: dict = {}
             recv_from: dict = {}  # c -> number of messages injected before the API receiver existed
@@ -419,12 +446,22 @@ def _witness(records: list) -> dict:
                 for o in x["obs"]:
                     c = o["c"]
                     key = (c, o["ns"], o["m"], o["st"])
+                    if o["k"] == "listfail":
+                        w["actor_crashes"] += 1
+                        crashed = True
+                        if last_take and last_take[1]:  # the crash dropped the request in hand: not a subscription
+                            w["requests_dropped_by_crash"] += 1
+                            taken.remove(last_take[0])
+                            first.pop(last_take[0], None)
+                        last_take = None
                     if o["k"] == "take":
                         nt += 1
+                        last_take = (key, False)
                         if c == UNKNOWN:
                             w["unknown_takes"] += 1
                         elif key in taken:
                             w["duplicate_takes"] += 1
+                            w["duplicate_takes_after_restart"] += crashed
                         else:
                             old = [k for k in taken if k[0] == c]
                             if any(k[:3] == key[:3] for k in old):
@@ -437,6 +474,7 @@ def _witness(records: list) -> dict:
                                 if c in recv_from and injected.get(c, 0) - recv_from[c] > consumed.get(c, 0):
                                     w["restart_with_message_buffered"] += 1
                             taken.append(key)
+                            last_take = (key, True)
                             first[key] = consumed.get(c, 0)
                     elif o["k"] == "newrecv":
                         recv_from.setdefault(c, injected.get(c, 0))
@@ -446,6 +484,8 @@ def _witness(records: list) -> dict:
                     elif o["k"] == "dlv":
                         dlv[key] = dlv.get(key, 0) + 1
                         w["samples_on_start_time_twins"] += key in twins
+                        if crashed:
+                            fed_after.add(key)
                         w["samples"] += 1
                         if 1 <= c <= len(cfg["cats"]):
                             cat = cfg["cats"][c - 1]
@@ -455,6 +495,7 @@ def _witness(records: list) -> dict:
                             w["metrics_seen"][name] = w["metrics_seen"].get(name, 0) + 1
                 w["back_to_back_takes"] += nt > 1
             w["streams"] += len(dlv)
+            w["streams_fed_across_restart"] += len(fed_after)
     return w
 
 
@@ -473,7 +514,7 @@ def _run_val(rep: Report, name: str, cases: list, d: Path, consts: dict, needs: 
     """RUN the cases through the real actor, VAL the recorded executions with TLC."""
     d.mkdir(parents=True, exist_ok=True)
     shards = replay_parallel(_worker, cases, d)
-    tconsts = dict(consts, Mode="trace", MaxMsg=99, MaxReq=99, MaxDepth=0, ReqSet=Raw("{}"))
+    tconsts = dict(consts, Mode="trace", MaxMsg=99, MaxReq=99, MaxFail=99, MaxDepth=0, ReqSet=Raw("{}"))
     fails, done, st = validate_shards(
         "DataSourcingTrace", shards, d, constants=tconsts, invariants=["TraceInv"],
         unconsumed_clause="C20.TraceNotExplainedBySpec", dfs_queue=True, heap="1g",
@@ -496,6 +537,8 @@ def _run_val(rep: Report, name: str, cases: list, d: Path, consts: dict, needs: 
             ExistingSubsUndisturbed_restarts_with_message_buffered=wit["restart_with_message_buffered"],
             DuplicateRequestNoEffect_duplicates=wit["duplicate_takes"], UnknownComponentHarmless_requests=wit["unknown_takes"],
             ExactlyOnceInOrder_streams_differing_only_in_start_time=wit["requests_differing_only_in_start_time"],
+            extension_actor_crashes=wit["actor_crashes"], extension_DuplicateRequestNoEffect_after_restart=wit["duplicate_takes_after_restart"],
+            extension_ExactlyOnceInOrder_streams_fed_after_restart=wit["streams_fed_across_restart"],
         ))
         _merge(rep.extra.setdefault("samples_by_category", {}), wit["samples_by_category"])
         _merge(rep.extra.setdefault("metrics_seen", {}), wit["metrics_seen"])
@@ -523,7 +566,7 @@ def _tlc_cases(rep: Report, name: str, consts: dict, d: Path, mode: str, simulat
         rep.fail("C20.MC." + "/".join(res.violated), dict(stage=name), res.counterexample[:3000])
         return None
     if simulate is None:
-        for a in (ACTIONS if mode == "gen" else ["MsgStep", "ReqStep"]):
+        for a in (ACTIONS if mode == "gen" else ["MsgStep", "ReqStep", "FailStep"]):
             if not res.coverage.get(a):
                 raise RuntimeError(f"vacuity: action {a} never taken in {name} ({res.coverage})")
     return read_emitted(cases_file)
@@ -534,7 +577,7 @@ def _offset_cases(rep: Report, raw: list, depth: int, n_orders: int, kmax: int) 
     injection offsets: 0..kmax loop iterations between consecutive events."""
     full = [o for o in raw if len(o) == depth and o[0]["a"] == "req" and any(x["a"] == "msg" for x in o)]
     as_rec = lambda t: [dict(a=a, c=c, ns=ns, m=m, st=st) for a, c, ns, m, st in t]  # noqa: E731
-    forced = [as_rec(HANDOVER), as_rec(HANDOVER_NS), as_rec(HANDOVER_ST)]
+    forced = [as_rec(HANDOVER), as_rec(HANDOVER_NS), as_rec(HANDOVER_ST), as_rec(HANDOVER_CRASH)]
     for f in forced:
         if f not in raw:
             raise RuntimeError("the forced hand-over order is not an order the specification allows")
@@ -591,6 +634,9 @@ def run(prop: str, tier: str) -> int:
         "consumer receivers on the registry channels are created before the request is sent (limit 500, nothing dropped by the receiver)",
         "a subscription is identified by what determines its channel name: namespace, component, metric, start_time (None or one fixed datetime)",
         "'subscribed at that time' = from the first message consumed from the API receiver after the actor took the request off its queue (DESIGN 5/C20)",
+        "EXTENSION beyond C20's stated quantifier: api.components() may raise once while the actor looks up a component (ApiListFails); the actor "
+        "crashes, the request in hand is dropped (it never becomes a subscription) and _run is called again after RESTART_DELAY on the virtual clock; "
+        "the same clauses are evaluated across the restart",
         "handler restarts by run_forever after an exception, closed API streams and unknown metrics of a known category are out of scope",
     ]
     # design-level model checking: invariants + action properties, then liveness under fairness
@@ -632,7 +678,8 @@ def run(prop: str, tier: str) -> int:
         sim=("restarts_with_existing_streams", "restart_while_fanout_in_flight", "duplicate_takes", "unknown_takes",
              "requests_differing_only_in_start_time"),
         off=("restarts_with_existing_streams", "restart_while_fanout_in_flight", "restart_with_message_buffered", "duplicate_takes",
-             "receiver_created_by_suspending_api", "requests_differing_only_in_start_time", "samples_on_start_time_twins"),
+             "receiver_created_by_suspending_api", "requests_differing_only_in_start_time", "samples_on_start_time_twins",
+             "actor_crashes", "duplicate_takes_after_restart", "streams_fed_across_restart"),
     )
     if cases:
         _run_val(rep, "bind", cases, work / "bind", BASE, needs)
